@@ -154,6 +154,30 @@ def run(ctx):
                 t = rng.choice(["", rng.choice(FILLER) + ": ", rng.choice(FILLER) + " "]) + body + rng.choice(["", ".", " " + rng.choice(FILLER), mark])
                 cases.append({"text": t[:300], "languages": rng.choice([[L], [L], None]), "settings": rng.choice([None, {"RELATIVE_BASE": [2020, 1, 1, 0, 0, 0, 0]}]),
                               "withlang": rng.random() < 0.5, "enum": True})
+        # every skip / pertain word of every language (as listed, and without the spaces some entries carry) as the LAST
+        # and as the FIRST token of a line and of the text, next to a date piece and alone
+        for L in order:
+            w_ = W["langs"][L]
+            ps = pieces(L)
+            words_ = [x for x in (w_.get("skip", []) + w_.get("pertain", [])) if x.strip() and any(ch.isalpha() for ch in x)]
+            if ctx.quick() and len(words_) > 4:
+                words_ = [x for x in words_ if x != x.strip()] + rng.sample(words_, 3)
+            for x in words_:
+                for v in {x, x.strip()}:
+                    dp = rng.choice(ps)
+                    for t in ("%s %s" % (dp, v), "%s %s\n%s" % (dp, v, rng.choice(FILLER)), v, "%s %s" % (v, dp), "%s\n%s %s" % (rng.choice(FILLER), v, dp), "%s %s." % (dp, v)):
+                        cases.append({"text": t, "languages": rng.choice([[L], [L], None]), "settings": rng.choice([None, {"RELATIVE_BASE": [2020, 1, 1, 0, 0, 0, 0]}]),
+                                      "withlang": rng.random() < 0.3})
+        # date pieces followed by a mark and then only non-ASCII whitespace (ideographic, no-break, em space): what is left
+        # of a chunk after trimming must not be reported when it is blank
+        for L in (order if not ctx.quick() else rng.sample(order, 40) + ["ja", "zh", "th", "en", "ru"]):
+            ps = pieces(L)
+            for _ in range(2):
+                cases.append({"text": "%s%s%s" % (rng.choice(ps + ["\u5f8c\u00bd", "\u00bd"]), rng.choice(["-", " -", " - ", ",", ".", " (", ":", "\u2014"]),
+                                                rng.choice(["\u3000", "\xa0", "\u2003", "\u3000\u3000", "\u2009 ", " \u3000"])),
+                              "languages": [L], "settings": None, "withlang": False})
+        for t in ("\u5f8c\u00bd-\u3000", "\u5f8c\u00bd-\xa0", "\u5f8c\u00bd -\u2003"):
+            cases.append({"text": t, "languages": ["ja"], "settings": None, "withlang": False})
         for _ in range(1500 if ctx.quick() else 20000):      # autodetection and multi-language lists
             L = rng.choice(order)
             langs = None if rng.random() < 0.6 else rng.sample(order, rng.randint(2, 3))
